@@ -111,6 +111,20 @@ def crews_oracle(ctx, case):
                     {"case": case})
 
 
+def capacity_oracle(ctx, case):
+    """the number of surveys a crew is planned for per day that the real Method hands to its schedule must be the
+    documented one (ceil of workday / average survey + travel time): with floor, or any smaller number, sites whose
+    survey does not fit into one workday are never planned at all"""
+    got, want = case.get("_cap_method"), case.get("_cap_documented")
+    if got is None or want is None or case["kind"] == "stationary":
+        return
+    if got != want:
+        ctx.violate("C06:capacity:daily-surveys-per-crew-differ-from-documented",
+                    f"workday {case['hours']} h, survey times {[s_['S'] for s_ in case['sites']][:6]}, travel {case['T']}: "
+                    f"documented ceil(workday / average survey+travel) = {want}, the method plans {got} per crew and day",
+                    {"case": case})
+
+
 def in_calendar(st, ymd):
     return ymd is not None and ymd[0] in st["dep_years"] and ymd[1] in st["months"]
 
@@ -118,9 +132,12 @@ def in_calendar(st, ymd):
 def oracle_trace(ctx, case, static, trace, feasible=False):
     static = expected_static(ctx, case, static)
     crews_oracle(ctx, case)
+    capacity_oracle(ctx, case)
     conf_cap = None
     if case["kind"] == "routine" and case.get("_cap_used") is not None and case.get("crews", 0) > 0:
-        conf_cap = case["crews"] * case["_cap_used"]   # configured crews x daily capacity
+        # configured crews x daily capacity (the given one, else the documented estimate -- never the method's own)
+        cap_c = case["cap"] if case.get("cap") is not None else case.get("_cap_documented", case["_cap_used"])
+        conf_cap = case["crews"] * cap_c
     stat = {st["site"]: st for st in static}
     conf = {s_["id"]: s_ for s_ in case.get("sites", [])}
     issued_on = {}     # site -> date of the outstanding request
